@@ -28,7 +28,7 @@ M = [
  ("M11","C13","snapshot.go","\t\t\t\tcase err == io.EOF && i < columns:\n\t\t\t\t\treturn errUnexpectedEOF","\t\t\t\tcase err == io.EOF && i < columns:\n\t\t\t\t\treturn nil","readState treats EOF inside a block as success"),
  ("M12","C14","snapshot.go","\tdefer c.recorderClose()\n","","failed snapshot leaves the recorder installed (reverts part of fix D11)"),
  ("M13","C16","column_index.go","\t\tif a.Key == b.Key {\n\t\t\treturn a.Value < b.Value // rows with equal keys are distinct items\n\t\t}\n","","sorted index comparator without tie-break"),
- ("M14","C12","column_strings.go","\t\t\tc.lock.Lock()\n\t\t\tdelete(c.seek, string(data[offset]))\n\t\t\tc.lock.Unlock()","","key column does not drop the key of a deleted row"),
+ ("M14","C12","column_strings.go","\t\t\tc.lock.Lock()\n\t\t\tif at, ok := c.seek[string(data[offset])]; ok && at == uint32(r.Offset) {\n\t\t\t\tdelete(c.seek, string(data[offset])) // unless another row has taken the key over meanwhile\n\t\t\t}\n\t\t\tc.lock.Unlock()","","key column does not drop the key of a deleted row"),
  ("M15","C17","column_expire.go","\tif expireAt, ok := s.rw.Get(); ok && expireAt != 0 {\n\t\treturn time.Unix(0, expireAt), true","\tif expireAt, ok := s.rw.Get(); ok {\n\t\treturn time.Unix(0, expireAt), true","cleanup treats deadline 0 (never) as 1970"),
  ("M16","C04","txn.go","\tfirst := !txn.setup\n\ttxn.initialize()\n\n\tfor _, columnName := range columns {","\tfirst := false\n\ttxn.initialize()\n\n\tfor _, columnName := range columns {","Union first-call rule dropped"),
  ("M17","C04","column_numeric.go","\t\t\tindex = withValues(index, s.reader.chunks[chunk].fill)\n\t\t\tsum += bitmap.Sum(s.reader.chunks[chunk].data, index)\n\t\t\tct += index.Count()","\t\t\tct += index.Count()\n\t\t\tindex = withValues(index, s.reader.chunks[chunk].fill)\n\t\t\tsum += bitmap.Sum(s.reader.chunks[chunk].data, index)","Avg denominator counts rows without a value"),
